@@ -61,6 +61,7 @@ def run(res, programs, tier):
         _r20_2(res, P, cfgname)
         _r20_3(res, P, cfgname)
         _r20_4(res, P, cfgname)
+        _r20_7(res, P, cfgname)
     for P in programs:
         if "dashu_int" in P.units:
             _r20_5(res, P, P.name)
@@ -294,6 +295,34 @@ def _r20_4(res, P, cfgname):
             else:
                 res.fail("R20.4", cfgname, key, "conversion to %s in %s is not guarded by `bit_len() <= %d` (thresholds seen: %s): the const generator path would panic or truncate" % (g[1], f["p"], bits, seen_k), span_loc(t["sp"]))
     res.floor("R20.4", cfgname, n, 7, "threshold-guarded conversions")
+
+
+# R20.7: a proc-macro is compiled with the profile of the *host* build (debug assertions on in dev, off
+# in release): anything it checks only in a debug assertion is checked in one profile and not in the
+# other, so the set of accepted literals / the generated tokens would depend on the profile.
+DEBUG_REVIEWED = {
+    "dashu_macros::parse::int::quote_ubig": "debug_assert!(int.bit_len() > 32): parse_integer returns through the const path when bit_len() <= 32, before calling",
+    "dashu_macros::parse::int::quote_ibig": "debug_assert!(int.bit_len() > 32): same guard in parse_integer",
+}
+
+
+def _r20_7(res, P, cfgname):
+    from . import c19
+    res.rule("R20.7", "the macro crate checks nothing in debug assertions only (reviewed: two redundant size assertions): acceptance of a literal and the generated tokens do not depend on the profile the proc-macro was built with")
+    n = 0
+    for f in P.fns(M):
+        if not f.get("mir"):
+            continue
+        n += 1
+        r = c19.debug_regions(f["mir"])
+        key = "debug-only region in " + f["p"]
+        if not r:
+            res.ok("R20.7", cfgname, "no " + key, nontrivial=False)
+        elif f["p"] in DEBUG_REVIEWED:
+            res.ok("R20.7", cfgname, key, sample=dict(function=f["p"], reviewed=DEBUG_REVIEWED[f["p"]]))
+        else:
+            res.fail("R20.7", cfgname, key, "%s checks something inside a debug assertion only: a release-built proc-macro skips it, so a literal rejected (or a value produced) in the dev profile differs in the release profile" % f["p"], span_loc(f["sp"]))
+    res.floor("R20.7", cfgname, n, 20, "function bodies of the macro crate")
 
 
 def _r20_3b(res, P, cfgname):
